@@ -18,7 +18,12 @@ Clause → theorem:
 * all instance counts ................................... `C04_pool_conservation`, `C04_pool_each_token_acted_once`,
   `C04_pool_on_all_acted`, `C04_pool_timing`
 * the default is "on" ................................... `C04_default_on`
-* the model is the current source ....................... `C04_model_is_source`, `C04_loop_is_source`
+* the model is the current source ....................... `C04_model_is_source`, `C04_loop_is_source`, `C04_pool_schedule_is_source`
+* progress: timers fire, Shoot returns, fair scheduling . `C04_sim_meets_hypotheses`, `C04_sim_terminates`, `C04_sim_off_all_fired`,
+  `C04_sim_run_bounded`, `C04_pool_progress`
+* the cancellation corner is bounded .................... `C04_cancel_one_late_shot`
+* `Time.Sub` saturation ................................. `C04_sub_saturation`
+* the documentation page promises the source's constants  `C04_doc_is_source`
 
 The model is tied to the current source by `Pandora.Bridge.Waiter` (regenerated `Wait`, `IsSlowDown`, `IsFinished`, constants, the
 whole pass of the loop of `instance.Run`, the cli default and its wiring) and by the real-time correspondence run (harness/cmd/c04).
@@ -331,7 +336,8 @@ theorem C04_discarded_if_late_any_ctx_counterexample : ¬ C04_discarded_if_late_
 
 /-- The discard_overflow a pool runs with: a pool section that does not mention the option gets `true` (the regenerated
 `readConfig` default, put under the regenerated config key of `InstancePoolConfig.DiscardOverflow`, into the list that is decoded
-afterwards; the instances' flag is copied from that field and assigned nowhere else), an explicit value is kept. So the
+afterwards; the instances' flag is copied from that field and assigned nowhere else; the block is not conditional on the
+config's format or source nor on the position of the section), an explicit value is kept. So the
 `discardOverflow = true` theorems describe a default run, `C04_off` a run with `discard_overflow: false`. -/
 theorem C04_default_on :
     (∀ g, Gen.Waiter.cliPoolDiscardOverflow g = effectiveDiscard g) ∧
@@ -342,21 +348,13 @@ theorem C04_default_on :
     Gen.Waiter.cliPoolsGetKey = Gen.Waiter.cliPoolsSetKey ∧
     Gen.Waiter.cliDecodesAfterDefault = true ∧
     Gen.Waiter.instanceDiscardFrom = ["InstancePoolConfig.DiscardOverflow"] ∧
-    Gen.Waiter.discardFieldAssignments = 0 := by
+    Gen.Waiter.discardFieldAssignments = 0 ∧
+    Gen.Waiter.cliDefaultGuard = "type-assertion-only" ∧ Gen.Waiter.cliDefaultInnerGuards = [] := by
   obtain ⟨h1, h2, h3, h4, h5, h6, h7, h8⟩ := Bridge.Waiter.cli_default_wiring
-  exact ⟨Bridge.Waiter.cliPoolDiscardOverflow_eq, rfl, fun _ => rfl, h1, h2, h3, h4.trans h5.symm, h6, h7, h8⟩
+  exact ⟨Bridge.Waiter.cliPoolDiscardOverflow_eq, rfl, fun _ => rfl, h1, h2, h3, h4.trans h5.symm, h6, h7, h8,
+    Bridge.Waiter.cli_default_unconditional.1, Bridge.Waiter.cli_default_unconditional.2⟩
 
 /-! ### the end of the run -/
-
-/-- instant at which an action is over: a shot when the response has arrived, a discard when it is reported -/
-def endT : Ev → Int
-  | .shoot it => it.env.ret + it.dur
-  | .discard it _ => it.env.ret
-
-/-- `B + (k+1)·step` without a product -/
-def chainBound (B step : Int) : Nat → Int
-  | 0 => B + step
-  | k + 1 => chainBound B step k + step
 
 /-- The END of every action of an instance, discards included (REPAIRED `Wait`, discard_overflow on): with the hypotheses of
 `C04_run_bounded`, `B = start + D + 2 s + ε + R`, the instance picking up its first acted token before `B` and every further one
@@ -518,50 +516,6 @@ theorem C04_sim_terminates (v : Variant) (d : Bool) (w : Waiter) (t : Int) (toks
     (runLoop v d w (simHist v d w t toks ps)).1.map (fun ev => ev.iter.tok) = toks :=
   runLoop_simHist v d w t toks ps hlen
 
-/-- time one pass costs: overheads plus the response -/
-def passCost (p : Delays) : Int := p.dPick + p.dNow + p.dArm + p.dLag + p.dur
-
-def sumCost : List Delays → Int
-  | [] => 0
-  | p :: ps => passCost p + sumCost ps
-
-/-- the end of the action of a generated pass is the instant `simNext` at which the next pass starts -/
-theorem endT_sim_head (d : Bool) (w' : Waiter) (it : Iter) (s : DiscardSample) :
-    endT (if fires d (isSlowDown w' false) = true then Ev.shoot it else Ev.discard it s) = simNext d w' it := by
-  unfold simNext
-  split <;> simp [endT]
-
-theorem sim_end_by_aux (v : Variant) (d : Bool) (M : Int) (toks : List Int) :
-    ∀ (w : Waiter) (t c : Int) (ps : List Delays), (∀ tok ∈ toks, tok ≤ M) → 0 ≤ c → t ≤ M + c →
-      ∀ k ev, (runLoop v d w (simHist v d w t toks ps)).1[k]? = some ev → endT ev ≤ M + c + sumCost (ps.take (k + 1)) := by
-  induction toks with
-  | nil => intro w t c ps _ _ _ k ev hk; simp [simHist, runLoop, simLast] at hk
-  | cons tok toks ih =>
-    intro w t c ps htoks hc ht k ev hk
-    cases ps with
-    | nil => simp [simHist, runLoop] at hk
-    | cons p ps =>
-      rw [runLoop_simHist_cons] at hk
-      have htok : tok ≤ M := htoks tok (by simp)
-      have hcost : 0 ≤ passCost p := by unfold passCost; omega
-      -- the end of this pass's action
-      have hend : simNext d (waitV v w (simIter t tok p).env).w (simIter t tok p) ≤ M + c + passCost p := by
-        unfold simNext passCost
-        simp only [simIter]
-        split <;> split <;> omega
-      cases k with
-      | zero =>
-        simp only [List.getElem?_cons_zero, Option.some.injEq] at hk
-        subst hk
-        rw [endT_sim_head]
-        simp only [List.take_succ_cons, List.take_zero, sumCost]
-        omega
-      | succ k =>
-        simp only [List.getElem?_cons_succ] at hk
-        have := ih _ _ (c + passCost p) ps (fun x hx => htoks x (by simp [hx])) (by omega) (by omega) k ev hk
-        simp only [List.take_succ_cons, sumCost]
-        omega
-
 /-- "Every token is eventually fired", with the time made explicit. discard_overflow OFF, closed world: the loop ends, every
 token of the schedule is fired (none discarded, in order), and the `k`-th shot is over by
 `max(start, last token time) + (the response times and overheads of the first k+1 passes)`: the length of the run depends on
@@ -581,53 +535,6 @@ theorem C04_sim_off_all_fired (v : Variant) (w : Waiter) (t T : Int) (toks : Lis
   · have := sim_end_by_aux v false (max t T) toks w t 0 ps (fun x hx => Int.le_trans (htoks x hx) (Int.le_max_right t T))
       (Int.le_refl 0) (by have := Int.le_max_left t T; omega) k ev hk
     omega
-
-theorem chainBound_shift (B step : Int) (k : Nat) : chainBound (B + step) step k = chainBound B step (k + 1) := by
-  induction k with
-  | zero => simp [chainBound]
-  | succ k ih => simp only [chainBound, ih]
-
-theorem sim_on_aux (start D R ε δ : Int) (hε : 0 ≤ ε) (hδ : 0 ≤ δ) (hR : 0 ≤ R) (toks : List Int) :
-    ∀ (w : Waiter) (t B' : Int) (ps : List Delays), w.lastNow ≤ t → (∀ tok ∈ toks, tok ≤ start + D) →
-      (∀ p ∈ ps, (p.dur : Int) ≤ R ∧ (p.dPick : Int) ≤ δ ∧ (p.dNow : Int) + p.dArm + p.dLag ≤ ε) →
-      start + D + maxOverdue + ε + R ≤ B' → t ≤ B' →
-      ∀ k ev, (runLoop .fresh true w (simHist .fresh true w t toks ps)).1[k]? = some ev → endT ev ≤ chainBound B' (δ + ε) k := by
-  have hm : (0 : Int) ≤ maxOverdue := by decide
-  induction toks with
-  | nil => intro w t B' ps _ _ _ _ _ k ev hk; simp [simHist, runLoop, simLast] at hk
-  | cons tok toks ih =>
-    intro w t B' ps hw htoks hps hB ht k ev hk
-    cases ps with
-    | nil => simp [simHist, runLoop] at hk
-    | cons p ps =>
-      rw [runLoop_simHist_cons] at hk
-      have htok : tok ≤ start + D := htoks tok (by simp)
-      obtain ⟨hp1, hp2, hp3⟩ := hps p (by simp)
-      -- the action of this pass is over by B' + δ + ε
-      have hend : simNext true (waitV .fresh w (simIter t tok p).env).w (simIter t tok p) ≤ B' + (δ + ε) := by
-        unfold simNext
-        by_cases hfire : fires true (isSlowDown (waitV .fresh w (simIter t tok p).env).w false) = true
-        · have hlt := sim_fired_lt w t tok p hw hfire
-          simp only [hfire, ↓reduceIte]
-          simp only [simIter] at hlt ⊢
-          split <;> omega
-        · simp only [hfire, Bool.false_eq_true, ↓reduceIte]
-          simp only [simIter]
-          split <;> omega
-      cases k with
-      | zero =>
-        simp only [List.getElem?_cons_zero, Option.some.injEq] at hk
-        subst hk
-        rw [endT_sim_head]
-        simp only [chainBound]
-        exact hend
-      | succ k =>
-        simp only [List.getElem?_cons_succ] at hk
-        have hw' := sim_lastNow_le .fresh true w t tok p hw
-        have := ih _ _ (B' + (δ + ε)) ps hw' (fun x hx => htoks x (by simp [hx])) (fun x hx => hps x (by simp [hx]))
-          (by omega) hend k ev hk
-        rw [chainBound_shift] at this
-        exact this
 
 /-- The length of a WHOLE run of an instance, discard_overflow ON, closed world (REPAIRED `Wait`), with no hypothesis left about
 the history: if the tokens lie in `[_, start + D]`, every response takes at most `R`, the loop overhead before a pick-up is at
